@@ -748,12 +748,28 @@ def judge_c02(r, site, starts, opts, out, rows, own_hosts=None, phase=''):
         if len(ss) > tries:
             r.violate(P, 'out-of-scope-request', 'first-request:tries:counted-by-item-runs' + (':resumed' if phase else ''),
                       '%s was requested in %d separate runs of its item although --tries is %d%s' % (u, len(ss), tries, phase))
+    # how each resource is referred to by each other resource, from the site graph: {(parent url, child url): {'link', 'inline'}}
+    edges = {}
+    for res in site.order:
+        for d, _ in res.links:
+            if not isinstance(d, str):
+                edges.setdefault((res.url, d.url), set()).add('link')
+        for d, _, _ in res.inlines:
+            edges.setdefault((res.url, d.url), set()).add('inline')
     for e in server.log:
         rec = e['rec']
         if rec is None:
             r.violate(P, 'unattributed-request', 'no-item', 'request %s could not be attributed to a queue item%s' % (e['url'], phase))
             continue
         r.probes['requests_attributed'] += 1
+        # the record the rules are applied to must itself be right: a URL that its parent merely links to (<a>) is not an
+        # embedded object, whatever the parent is
+        if rec.get('parent_url') and canon(e['url']) == canon(rec['url']):
+            kinds = edges.get((canon(rec['parent_url']), canon(rec['url'])))
+            if kinds == {'link'} and rec.get('inline_level'):
+                r.violate(P, 'out-of-scope-request', 'linked-url-recorded-as-embedded' + (':resumed' if phase else ''),
+                          '%s is an ordinary link of %s but is recorded (and judged) as an embedded object of inline level %r%s'
+                          % (e['url'], rec['parent_url'], rec['inline_level'], phase))
         u = refscope.parse(canon(e['url']))
         record = {'level': rec['level'], 'inline_level': rec['inline_level'], 'try_count': rec['try_count'],
                   'parent': refscope.parse(canon(rec['parent_url'])) if rec['parent_url'] else None,
